@@ -420,6 +420,16 @@ def _frame_replay(task, res, seed, what):
         after = statewatch.snapshot()
         if after != before:
             changed = statewatch.diff(before, after)
+            if not any(k.startswith(("registry[", "algorithms")) for k in changed):
+                # only module-level containers / caches changed: that is history-carrying state, but whether any
+                # outcome depends on it is not known from the write alone (a correctly keyed memo is harmless)
+                res["obligations"].append(obligation(
+                    f"{task.name}: writes only to objects allocated during the call", "refuted", "pyvc write log + cpython",
+                    0.0, witness=dict(s, __state_changed__=changed),
+                    detail=f"NOWITNESS the call changes module-level state {changed} ({what}); no outcome difference shown "
+                           "by this obligation (see the bounded history run)", kind="frame"))
+                res["error"] = None
+                return
             res["obligations"].append(obligation(
                 f"{task.name}: writes only to objects allocated during the call", "refuted", "pyvc write log + cpython", 0.0,
                 witness=dict(s, __state_changed__=changed),
